@@ -593,3 +593,166 @@ func ruleExportNoEmptyShortcut(c *eng.Ctx) {
 	}
 	c.Check(bad == "", R, "rag.(*Exporter).Export#empty", fn.Pos(), "empty collections go through the format writer", bad+": nothing is written, which is not a well-formed document of the format")
 }
+
+// R16.8 [C16]
+func ruleResolvedStyleReadOnly(c *eng.Ctx) {
+	const R = "R16.8-RESOLVED-STYLE-READONLY"
+	c.Rule(R, "what StyleResolver.Resolve returns is the resolver's cached object for that style id: the readers never write through it (a paragraph-specific property written there, such as a direct outline level, turns every later paragraph of the same style into a heading)", 4, 0)
+	for _, pkg := range []string{"docx", "odt"} {
+		res := c.P.Func(pkg + ".(*StyleResolver).Resolve")
+		if res == nil {
+			continue
+		}
+		for _, fn := range c.P.ModuleFuncs() {
+			if fn.Pkg == nil || eng.ShortPath(fn.Pkg.Pkg.Path()) != pkg {
+				continue
+			}
+			if strings.Contains(eng.FuncName(fn), "(*StyleResolver)") {
+				continue // the resolver fills its own cache
+			}
+			n := 0
+			for _, ci := range eng.Calls(fn, true, func(_ string, ci ssa.CallInstruction) bool { return ci.Common().StaticCallee() == res }) {
+				v := ci.Value()
+				if v == nil {
+					continue
+				}
+				n++
+				key := fmt.Sprintf("%s#Resolve%d", eng.FuncName(fn), n)
+				bad := ""
+				if _, isPtr := v.Type().Underlying().(*types.Pointer); isPtr {
+					eng.Instrs(fn, true, func(in ssa.Instruction) {
+						st, ok := in.(*ssa.Store)
+						if !ok {
+							return
+						}
+						for a := st.Addr; a != nil; {
+							fa, ok := a.(*ssa.FieldAddr)
+							if !ok {
+								break
+							}
+							if fa.X == ssa.Value(v) {
+								fr, _ := eng.AsField(fa)
+								bad = "field " + fr.Field + " written at " + c.P.Pos(st.Pos())
+							}
+							// through phis of the pointer
+							if ph, ok := fa.X.(*ssa.Phi); ok {
+								for _, e := range ph.Edges {
+									if e == ssa.Value(v) {
+										fr, _ := eng.AsField(fa)
+										bad = "field " + fr.Field + " written at " + c.P.Pos(st.Pos())
+									}
+								}
+							}
+							a = fa.X
+						}
+					})
+				}
+				c.Check(bad == "", R, key, ci.Pos(), "the resolved style is only read", "the shared resolved style is modified ("+bad+"): the change stays in the resolver's cache for every later paragraph with that style")
+			}
+		}
+	}
+}
+
+// R20.5 [C20]
+func ruleMagicAtOffsetZero(c *eng.Ctx) {
+	const R = "R20.5-MAGIC-AT-START"
+	c.Rule(R, "format sniffing tests signatures at the start of the file only (index comparisons or HasPrefix): a search for `%PDF-` anywhere in the first block classifies HTML and ZIP files that merely contain those bytes as PDF", 2, 0)
+	for _, name := range []string{"format.DetectFromReader", "format.DetectFromMagic"} {
+		fn := c.P.Func(name)
+		if fn == nil {
+			c.Undec(R, name, token.NoPos, "anchor not found")
+			continue
+		}
+		var bad []string
+		cluster := eng.Cluster(fn, 2)
+		// the leading block of the file: the data parameter, or the buffer filled by ReadAt
+		roots := map[ssa.Value]bool{}
+		for _, p := range fn.Params {
+			if st, ok := p.Type().Underlying().(*types.Slice); ok {
+				if bt, ok := st.Elem().Underlying().(*types.Basic); ok && bt.Kind() == types.Uint8 {
+					roots[p] = true
+				}
+			}
+		}
+		eng.Instrs(fn, false, func(in ssa.Instruction) {
+			if ci, ok := in.(ssa.CallInstruction); ok && ci.Common().IsInvoke() && ci.Common().Method.Name() == "ReadAt" {
+				for v := range eng.Slice(ci.Common().Args[0], nil) {
+					if _, isMk := v.(*ssa.MakeSlice); isMk {
+						roots[v] = true
+					}
+					if _, isAl := v.(*ssa.Alloc); isAl {
+						roots[v] = true
+					}
+				}
+			}
+		})
+		for _, h := range cluster {
+			if strings.Contains(strings.ToLower(h.Name()), "html") {
+				continue // HTML has no signature: looking for a tag in the leading text is its definition
+			}
+			for _, ci := range eng.Calls(h, false, func(n string, _ ssa.CallInstruction) bool {
+				switch n {
+				case "bytes.Contains", "bytes.Index", "strings.Contains", "strings.Index", "bytes.LastIndex", "strings.LastIndex", "bytes.IndexByte":
+					return true
+				}
+				return false
+			}) {
+				onMagic := false
+				for v := range eng.SliceInter(ci.Common().Args[0], func(*ssa.Call) bool { return true }, cluster) {
+					if roots[v] {
+						onMagic = true
+					}
+				}
+				if onMagic {
+					bad = append(bad, eng.CalleeName(ci)+" in "+eng.FuncName(h)+" at "+c.P.Pos(ci.Pos()))
+				}
+			}
+		}
+		sort.Strings(bad)
+		c.Check(len(bad) == 0, R, name+"#anchored", fn.Pos(), "signatures are tested at offset 0", "a signature is searched for instead of tested at the start ("+strings.Join(bad, ", ")+")")
+	}
+}
+
+// R20.6 [C20]
+func ruleDRMDefaultDeny(c *eng.Ctx) {
+	const R = "R20.6-DRM-DEFAULT-DENY"
+	c.Rule(R, "hasEncryptedContent treats an encrypted content document as DRM whatever the algorithm, except the two font-obfuscation algorithms: the positive answer depends on no other test of the algorithm URI (an allow-list of known ciphers lets AES-GCM and vendor schemes through)", 1, 0)
+	fn := c.P.Func("epubdoc.hasEncryptedContent")
+	if fn == nil {
+		c.Undec(R, "epubdoc.hasEncryptedContent", token.NoPos, "anchor not found")
+		return
+	}
+	allowed := map[string]bool{"epubdoc.isFontObfuscation": true, "epubdoc.isContentFile": true}
+	n := 0
+	for _, r := range eng.Returns(fn) {
+		cst, ok := eng.ReturnValues(r)[0].(*ssa.Const)
+		if !ok || cst.Value == nil || cst.Value.ExactString() != "true" {
+			continue
+		}
+		n++
+		var bad []string
+		doms, _ := eng.DominatingIfs([]*ssa.Function{fn}, r)
+		for _, ifi := range doms {
+			for v := range eng.Slice(ifi.Cond, nil) {
+				call, ok := v.(*ssa.Call)
+				if !ok {
+					continue
+				}
+				name := eng.CalleeName(call)
+				if strings.HasPrefix(name, "builtin:") || allowed[name] {
+					continue
+				}
+				if cal := call.Call.StaticCallee(); cal != nil && eng.InModule(cal) {
+					bad = append(bad, name+" at "+c.P.Pos(call.Pos()))
+				} else if strings.HasPrefix(name, "strings.") {
+					bad = append(bad, name+" at "+c.P.Pos(call.Pos()))
+				}
+			}
+		}
+		sort.Strings(bad)
+		c.Check(len(bad) == 0, R, fmt.Sprintf("epubdoc.hasEncryptedContent#return-true-%d", n), r.Pos(), "DRM unless font obfuscation", "the DRM verdict additionally depends on "+strings.Join(dedupStr(bad), ", ")+": algorithms that test does not know are waved through")
+	}
+	if n == 0 {
+		c.Viol(R, "epubdoc.hasEncryptedContent#return-true", fn.Pos(), "no positive verdict found")
+	}
+}
